@@ -376,6 +376,78 @@ def time_of_day(t):
     return None
 
 
+def time_of_day_ext(t):
+    """time_of_day, also through `<datetime>.replace(hour=h, minute=m)` on a midnight base"""
+    if t[0] == 'call' and t[1] == ('meth', 'replace') and len(t[2]) == 1:
+        base = time_of_day_ext(t[2][0])
+        kws = dict(t[3])
+        if base is None or set(kws) - {'hour', 'minute', 'second', 'microsecond'}:
+            return None
+        def n(x, d):
+            return int(x[1]) if x is not None and x[0] == 'num' else d
+        if n(kws.get('second'), 0) or n(kws.get('microsecond'), 0):
+            return None
+        return (n(kws.get('hour'), base[0]), n(kws.get('minute'), base[1]))
+    if t[0] == 'call' and t[1][0] == 'ext' and t[1][1] in ('pandas.Timestamp', 'pandas.to_datetime') and t[2]:
+        return time_of_day_ext(t[2][0])
+    return time_of_day(t)
+
+
+def datetime_base(t):
+    """the datetime.datetime(y, m, d, ...) construction a timestamp term is built from (through Timestamp(...) and .replace(...))"""
+    while True:
+        if t[0] == 'call' and t[1] == ('meth', 'replace') and t[2]:
+            t = t[2][0]
+        elif t[0] == 'call' and t[1][0] == 'ext' and t[1][1] in ('pandas.Timestamp', 'pandas.to_datetime') and t[2]:
+            t = t[2][0]
+        else:
+            break
+    if t[0] == 'call' and t[1] == ('ext', 'datetime.datetime'):
+        return t
+    return None
+
+
+def as_len_test(c, v=True):
+    """interpret a branch condition (term c taken with truth value v) as an emptiness test: -> (x, 'empty'|'nonempty') or None.
+    Recognises len(x) == 0, len(x) < 1, len(x) <= 0, len(x) > 0, bool(len(x)), x.size == 0 and their negations."""
+    def size_of(t):
+        if t[0] == 'call' and t[1] == ('ext', 'LEN') and len(t[2]) == 1:
+            return t[2][0]
+        if t[0] == 'attr' and t[2] == 'size':
+            return t[1]
+        return None
+    if c[0] == 'not':
+        return as_len_test(c[1], not v)
+    if c[0] == 'call' and c[1] == ('ext', 'BOOL') and len(c[2]) == 1:
+        return as_len_test(c[2][0], v)
+    x = size_of(c)
+    if x is not None:
+        return (x, 'nonempty' if v else 'empty')
+    if c[0] == 'cmp' and c[1] in ('==', '<', '<='):
+        a, b = c[2], c[3]
+        for lhs, rhs, flipped in ((a, b, False), (b, a, True)):
+            x = size_of(lhs)
+            if x is None or rhs[0] != 'num':
+                continue
+            k = rhs[1]
+            op = c[1]
+            if flipped:          # k op len
+                if op == '==' and k == 0:
+                    return (x, 'empty' if v else 'nonempty')
+                if op == '<' and k == 0:      # 0 < len
+                    return (x, 'nonempty' if v else 'empty')
+                if op == '<=' and k == 1:     # 1 <= len
+                    return (x, 'nonempty' if v else 'empty')
+            else:                # len op k
+                if op == '==' and k == 0:
+                    return (x, 'empty' if v else 'nonempty')
+                if op == '<' and k == 1:
+                    return (x, 'empty' if v else 'nonempty')
+                if op == '<=' and k == 0:
+                    return (x, 'empty' if v else 'nonempty')
+    return None
+
+
 def chain_ops(t, stop=None):
     """method/attribute/subscript chain of a term, innermost first: [(root,), ('meth', name, args, kwargs), ('attr', name), ('sub', index), ...]"""
     ops = []
